@@ -22,6 +22,9 @@ Sign(x) == IF x < 0 THEN -1 ELSE IF x > 0 THEN 1 ELSE 0
 
 SeqRange(s) == {s[i] : i \in DOMAIN s}
 
+RECURSIVE SetAsSeq(_)
+SetAsSeq(S) == IF S = {} THEN <<>> ELSE LET x == CHOOSE y \in S : \A z \in S : y <= z IN <<x>> \o SetAsSeq(S \ {x})
+
 RevSeq(s) == [i \in 1..Len(s) |-> s[Len(s) + 1 - i]]
 
 MaxInt(a, b) == IF a < b THEN b ELSE a
